@@ -20,7 +20,7 @@ RULE = (
     "of the C03 call-tree family, activated in random order; the value each binding stores (logged by the program) must "
     "be that of the most recently activated handler whose path matches that activation.  Focus positions: "
     "parameters, plain / tuple / starred / augmented / annotated assignment, loop targets, with targets, attribute "
-    "stores (o.attr), the return value (#value).  Closure variables: an override attempt must raise OverrideException "
+    "stores (o.attr), the return value (#value).  Sequences: a call in which the override supplies a value and a later subscriber of the same probe raises, followed by a call in which the override declines everywhere (must equal the plain call).  Closure variables: an override attempt must raise OverrideException "
     "and leave the cell unchanged.  non-trivial = at least one binding was actually substituted and the program's "
     "outcome or log differs from the un-overridden run; distinct = distinct (program, input, configuration)."
 )
@@ -208,6 +208,49 @@ def check_program(m, mod, rnd, res, case_base, nconf):
             for ov in cfg["overriders"]:
                 res.count("mech_" + ov["mech"])
             res.count("focus_" + ("meta" if cfg["focus"].startswith("#") else "attr" if "." in cfg["focus"] else "var"))
+    # a binding whose override was supplied but whose delivery then failed (a later subscriber of the
+    # same probe raised) must not leak the supplied value into a later binding that the override declines
+    names_ = [n for n in streams.body_names(m) if n not in ("rest", "kws", "o")]
+    for argi in range(min(2, m["nargs"])):
+        if not names_:
+            break
+        focus = rnd.choice(names_)
+        res.evaluations += 1
+        phase = [1]
+
+        class Refuse(Exception):
+            pass
+
+        def ov(d, focus=focus, phase=phase):
+            return 777 if phase[0] == 1 and is_int(d[focus]) else ABSENT
+
+        def guard(d, phase=phase):
+            if phase[0] == 1:
+                raise Refuse()
+
+        case = dict(case_base, argi=argi, refused_then_declined=focus)
+        try:
+            from ptera import probing as _pr
+
+            with _pr(f"f > {focus}", env=vars(mod), overridable=True) as p:
+                if argi % 2 == 0:
+                    # declines by not being reached (filter upstream of the override)
+                    p.filter(lambda d, focus=focus, phase=phase: phase[0] == 1 and is_int(d[focus])).override(lambda d: 777)
+                else:
+                    p.override(ov)
+                p.subscribe(guard)
+                first = prorun.run_call(mod, mod.f, argi, m["script"])
+                phase[0] = 2
+                out = prorun.run_call(mod, mod.f, argi, m["script"])
+        except Exception as e:
+            res.violation(case, {"what": "exception in the refused-then-declined sequence", "error": common.fmt_exc(e)[-1200:]})
+            continue
+        base = prorun.run_call(mod, mod.f, argi, m["script"])
+        res.deciding += 1
+        d = prorun.same_outcome(base, out)
+        if d:
+            res.violation(case, {"what": "after a binding whose overriding delivery failed, a call in which the override declines everywhere differs from the plain call", "diff": prorun.describe_diff(base, out, d)})
+        res.count("refused_then_declined_sequences")
     # closure variable rebound by the body (nonlocal): an override - unconditional, or one that
     # declines the value seen at entry but supplies one at a later store - must not be applied silently
     if m["closure"] and m.get("closure_write") == "cv2" and "cv2" in mod.f.__code__.co_freevars:
